@@ -32,6 +32,7 @@ import (
 type logCapture struct {
 	mu      sync.Mutex
 	entries []LogLine
+	dropped int
 	on      bool
 }
 
@@ -65,6 +66,11 @@ func (l *logCapture) Fire(e *logrus.Entry) error {
 		}
 	}
 	l.entries = append(l.entries, ll)
+	if len(l.entries) > 20000 {
+		// a spinning daemon must not exhaust memory: keep the most recent lines
+		l.entries = append(l.entries[:0:0], l.entries[10000:]...)
+		l.dropped += 10000
+	}
 	return nil
 }
 
@@ -196,13 +202,16 @@ func (d *Daemon) SyncTo(tip uint32, o SyncOpts) Outcome {
 		o.WedgeTries = 3
 	}
 	if o.MaxHeightsPolls == 0 {
-		o.MaxHeightsPolls = 200000
+		// the sync loop asks for the heights once per pass, and a pass ends at the tip or at the first failure:
+		// a healthy run needs a handful of passes, a run with one injected fault one more
+		o.MaxHeightsPolls = 3000
 	}
 	ctx, cancel := context.WithCancel(context.Background())
 	defer cancel()
 
 	capture.mu.Lock()
 	capture.entries = nil
+	capture.dropped = 0
 	capture.on = true
 	capture.mu.Unlock()
 	defer func() {
@@ -229,8 +238,12 @@ func (d *Daemon) SyncTo(tip uint32, o SyncOpts) Outcome {
 			polls++
 			// account failures logged since the last poll
 			capture.mu.Lock()
-			newLogs := capture.entries[seenLogs:]
-			seenLogs = len(capture.entries)
+			from := seenLogs - capture.dropped
+			if from < 0 {
+				from = 0
+			}
+			newLogs := append([]LogLine(nil), capture.entries[from:]...)
+			seenLogs = capture.dropped + len(capture.entries)
 			capture.mu.Unlock()
 			for _, l := range newLogs {
 				if l.Level != "error" {
